@@ -3,7 +3,7 @@
 import json, os, shutil, sys, re
 root = os.path.dirname(os.path.dirname(os.path.abspath(__file__)))
 d = json.load(open(sys.argv[1])); tag = sys.argv[2]
-src = d['dir']; pid, mk = src.rstrip('/').split('/')[-2], src.rstrip('/').split('/')[-1]
+src = d['dir']; parts = src.rstrip('/').split('/'); mk = parts[-1]; pid = parts[-3] if parts[-2] == 'out' else parts[-2]
 sid = f'{pid}-{tag}{mk}'
 if not d.get('applies'):
     print('skip (patch does not apply):', sid, d.get('err')); sys.exit(0)
@@ -14,7 +14,7 @@ shutil.copytree(src, dst)
 for junk in ('suite.log',):
     try: os.remove(os.path.join(dst, junk))
     except OSError: pass
-meta = {'id': sid, 'property': pid, 'origin': 'independent sub-agent given only the property text and a scratch worktree' + (' (second round: asked for hard-to-find changes)' if tag else ''),
+meta = {'id': sid, 'property': pid, 'origin': 'independent sub-agent given only the property text and a scratch worktree' + (' (round %s: asked for changes that slip past bounded exhaustive checks)' % tag if tag else ''),
         'files_changed': sorted(set(re.findall(r'^\+\+\+ b/(\S+)', open(os.path.join(src, 'patch.diff')).read(), re.M))), 'needs_to_manifest': '(see notes.md)',
         'confirmed_by_me': {'how': 'lib/seedverify.sh in a scratch worktree of /repo HEAD (removed afterwards)', 'demo_passes_on_pristine': d.get('pristine_demo_rc') == 0,
                             'suite_default_features_passes_with_patch': d.get('suite_default_rc') == 0, 'suite_default_passed': d.get('suite_default_passed'),
